@@ -42,10 +42,13 @@ OfflinePacketFilter::OfflinePacketFilter(const OfflinePacketFilter& other) {
 }
 
 OfflinePacketFilter& OfflinePacketFilter::operator=(const OfflinePacketFilter& other) {
+    // Get these before closing our handle: other might be this object
+    const int link_type = pcap_datalink(other.handle_);
+    const int snap_len = pcap_snapshot(other.handle_);
     string_filter_ = other.string_filter_;
     pcap_freecode(&filter_);
     pcap_close(handle_);
-    init(string_filter_, pcap_datalink(other.handle_), pcap_snapshot(other.handle_));
+    init(string_filter_, link_type, snap_len);
     return* this;
 }
 
